@@ -99,8 +99,18 @@ L3CONJ = [
     if len({_at(l), _at(m), _at(k)}) == 3
 ]
 L3PLUS = L3 + L3CONJ[:24]
+# two-literal conjunctive consequents (their non-falsification CNF has two clauses)
+L3CC = [(A(l, m), k) for k in LITS3 for l, m in itertools.combinations(LITS3, 2) if len({_at(l), _at(m), _at(k)}) == 3]
+L3MIX = L3 + L3CC
 L3T = L3 + [(l, TOP) for l in LITS3]
 assert len(L3) == 24 and len(L3T) == 30 and len(L3PLUS) == 48
+
+
+def shape_of(cs):
+    """Syntactic shape of a base: how many conditionals have a compound consequent / a compound antecedent (the structure
+    quotient is semantic; the implementation may treat these shapes differently, so they are kept apart)."""
+    lit = lambda f: f[0] == "var" or (f[0] == "not" and f[1][0] == "var") or f[0] in ("top", "bot")   # noqa: E731
+    return (sum(1 for c_ in cs if not lit(c_[0])), sum(1 for c_ in cs if not lit(c_[1])))
 
 
 def structural_scope(alphabet, sig, maxsize, want, seed=0, per_class=1, minsize=1):
@@ -121,9 +131,9 @@ def structural_scope(alphabet, sig, maxsize, want, seed=0, per_class=1, minsize=
             stats["by_class"][cls] = stats["by_class"].get(cls, 0) + 1
             if cls not in want:
                 continue
-            classes.setdefault((cls, ref.structure(sems, nW)), []).append(cs)
+            classes.setdefault((cls, ref.structure(sems, nW), shape_of(cs) if len(sig) >= 3 else None), []).append(cs)
     reps = []
-    for (cls, _st), members in classes.items():
+    for (cls, _st, _sh), members in classes.items():
         for j in range(min(per_class, len(members))):
             reps.append((list(members[(seed + j) % len(members)]), cls))
     stats["structures"] = len(classes)
